@@ -253,10 +253,36 @@ LightMuts(S, C, U) ==
 
 ---------------------------------------------------------------------------
 \* the bases
+(***************************************************************************)
+(* The RETRY dimension: second requests for the number of a base after its  *)
+(* first (semantic) request, through both entry points: identical; another  *)
+(* fee rate only; another per-commitment point; other balances; an HTLC     *)
+(* dropped / its value, payment hash or expiry changed (an offered HTLC's    *)
+(* expiry and the fee rate are NOT in the commitment transaction).          *)
+(***************************************************************************)
+OtherPt(pt) == IF pt = "A" THEN "B" ELSE "A"
+Bump(hs, i, f) == [hs EXCEPT ![i] = IF f = "v" THEN [@ EXCEPT !.v = @ + 1]
+                                    ELSE IF f = "h" THEN [@ EXCEPT !.h = @ + 4] ELSE [@ EXCEPT !.cl = @ + 1]]
+RetryContents(C) ==
+     {<<"same", C>>, <<"fr", [C EXCEPT !.fr = @ + 2000]>>, <<"pt", [C EXCEPT !.pt = OtherPt(@)]>>}
+  \cup (IF C.to_h > 2000 THEN {<<"bal", [C EXCEPT !.to_h = @ - 1000, !.to_c = @ + 1000]>>} ELSE {})
+  \cup (IF Len(C.off) > 0 /\ C.to_h > 2000
+        THEN {<<"off_drop", [C EXCEPT !.off = Tail(@), !.to_h = @ + C.off[1].v]>>,
+              <<"off_value", [C EXCEPT !.off = Bump(@, 1, "v"), !.to_h = @ - 1]>>,
+              <<"off_hash", [C EXCEPT !.off = Bump(@, 1, "h")]>>,
+              <<"off_cltv", [C EXCEPT !.off = Bump(@, 1, "cl")]>>} ELSE {})
+  \cup (IF Len(C.rcv) > 0 /\ C.to_h > 2000
+        THEN {<<"rcv_drop", [C EXCEPT !.rcv = Tail(@), !.to_h = @ + C.rcv[1].v]>>,
+              <<"rcv_value", [C EXCEPT !.rcv = Bump(@, 1, "v"), !.to_h = @ - 1]>>,
+              <<"rcv_cltv", [C EXCEPT !.rcv = Bump(@, 1, "cl")]>>} ELSE {})
+Retries(S, C) == {[kind |-> kc[1], ep |-> ep, C2 |-> kc[2], outs2 |-> CanonOuts(S, kc[2])]
+                    : kc \in RetryContents(C), ep \in {"sem", "raw"}}
+
 BaseRec(S, name, C, hist, full) ==
   LET U == CanonOuts(S, C) IN
   [S |-> S, name |-> name, C |-> C, pre |-> Pre(S), hist |-> hist, outs |-> U, full |-> full,
-   ms |-> SetToSeq(IF full THEN FullMuts(S, C, U) ELSE LightMuts(S, C, U))]
+   ms |-> SetToSeq(IF full THEN FullMuts(S, C, U) ELSE LightMuts(S, C, U)),
+   rs |-> SetToSeq(Retries(S, C))]
 Bases0 ==
      UNION {{BaseRec(S, nc[1], nc[2], "fresh", TRUE) : nc \in NamedContents(S)} : S \in FullSetups}
   \cup UNION {{BaseRec(S, nc[1], nc[2], "retry", FALSE) : nc \in {x \in NamedContents(S) : x[1] \in RetryNames}} : S \in FullSetups}
@@ -267,14 +293,21 @@ BaseSeq0 == SetToSeq(Bases0)
 RECURSIVE Offset(_)
 Offset(i) == IF i = 1 THEN 0 ELSE Offset(i - 1) + Len(BaseSeq0[i - 1].ms)
 Offs == TLCEval([i \in DOMAIN BaseSeq0 |-> Offset(i)])
+NB == Len(BaseSeq0)
+NCases == IF NB = 0 THEN 0 ELSE Offs[NB] + Len(BaseSeq0[NB].ms)
+RECURSIVE ROffset(_)
+ROffset(i) == IF i = 1 THEN NCases ELSE ROffset(i - 1) + Len(BaseSeq0[i - 1].rs)
+ROffs == TLCEval([i \in DOMAIN BaseSeq0 |-> ROffset(i)])
+NRetries == IF NB = 0 THEN 0 ELSE ROffs[NB] + Len(BaseSeq0[NB].rs) - NCases
 BaseSeq == TLCEval([i \in DOMAIN BaseSeq0 |->
               [b |-> i, S |-> BaseSeq0[i].S, name |-> BaseSeq0[i].name, C |-> BaseSeq0[i].C, pre |-> BaseSeq0[i].pre,
                hist |-> BaseSeq0[i].hist, outs |-> BaseSeq0[i].outs,
                muts |-> [k \in DOMAIN BaseSeq0[i].ms |->
                            [id |-> Offs[i] + k, m |-> BaseSeq0[i].ms[k].m, m2 |-> BaseSeq0[i].ms[k].m2,
-                            w |-> BaseSeq0[i].ms[k].w]]]])
-NB == Len(BaseSeq)
-NCases == IF NB = 0 THEN 0 ELSE Offs[NB] + Len(BaseSeq[NB].muts)
+                            w |-> BaseSeq0[i].ms[k].w]],
+               retries |-> [k \in DOMAIN BaseSeq0[i].rs |->
+                           [id |-> ROffs[i] + k, kind |-> BaseSeq0[i].rs[k].kind, ep |-> BaseSeq0[i].rs[k].ep,
+                            C2 |-> BaseSeq0[i].rs[k].C2, outs2 |-> BaseSeq0[i].rs[k].outs2]]]])
 
 ASSUME IOEnv.CT_OUT = "" \/ ndJsonSerialize(IOEnv.CT_OUT, BaseSeq)
 
@@ -304,18 +337,19 @@ CaseOf(bi, mi) ==
       ws == WsFor(tx, cn, w) IN
   [b |-> b, canon |-> cn, m |-> m, m2 |-> m2, w |-> w, tx |-> tx, ws |-> ws, pool |-> RangeOf(cn.outs)]
 
-VARIABLES bi, mi, last
-vars == <<bi, mi, last>>
+VARIABLES bi, mi, ri, last
+vars == <<bi, mi, ri, last>>
 
 Init == /\ bi \in 1..NB
         /\ mi = 0
+        /\ ri = 0
         /\ last = IF SetupTag(BaseSeq[bi].S, SW) = "ok"
                   THEN [kind |-> "sem", tag |-> SemAt[bi].tag, refuse |-> {}, signed_ok |-> TRUE, canon_req |-> FALSE]
                   ELSE [kind |-> "setup", tag |-> "refused", refuse |-> {}, signed_ok |-> TRUE, canon_req |-> FALSE]
-Next == /\ mi = 0
+RawStep == /\ mi = 0 /\ ri = 0
         /\ last.kind = "sem"
         /\ mi' \in 1..Len(BaseSeq[bi].muts)
-        /\ UNCHANGED bi
+        /\ UNCHANGED <<bi, ri>>
         /\ LET c == CaseOf(bi, mi')
                r == StepRaw(c.tx, c.ws, c.b.S, c.b.C, c.pool, c.b.hist = "retry", SW) IN
            last' = [kind |-> "raw", tag |-> r.tag, refuse |-> Rules(c.tx, c.b.S, c.b.C, c.pool),
@@ -324,6 +358,18 @@ Next == /\ mi = 0
                     signed_ok |-> r.tag = "ok" => /\ TxBV(r.signed) = TxBV(c.tx)
                                                   /\ (c.m.k = "none" /\ c.m2.k = "none" => TxBV(r.signed) = TxBV(SemAt[bi].signed)),
                     canon_req |-> c.m.k = "none" /\ c.m2.k = "none" /\ c.w.k = "none"]
+\* a second request for the number of the base, after its accepted first one
+RetryStep == /\ mi = 0 /\ ri = 0
+             /\ last.kind = "sem" /\ last.tag = "ok"
+             /\ ri' \in 1..Len(BaseSeq[bi].retries)
+             /\ UNCHANGED <<bi, mi>>
+             /\ LET b == BaseSeq[bi]
+                    r == b.retries[ri'] IN
+                last' = [kind |-> "retry", tag |-> StepRetry(b.S, b.C, r.C2), refuse |-> {},
+                         \* an accepted retry signs what was signed for the recorded content
+                         signed_ok |-> StepRetry(b.S, b.C, r.C2) = "ok" => SameContent(b.C, r.C2),
+                         canon_req |-> r.kind = "same"]
+Next == RawStep \/ RetryStep
 Spec == Init /\ [][Next]_vars
 
 \* C04 on the model: nothing non-canonical is accepted; what is signed is the submitted = canonical
@@ -336,11 +382,13 @@ C04_SemSignsCanonical ==
 \* consistency of the code-shaped model with the reference: a canonical transaction is never
 \* refused as "recomposed tx mismatch"
 RefConsistent == (last.kind = "raw" /\ last.tag = "mismatch") => last.refuse # {}
-TypeOK == /\ bi \in 1..NB /\ mi \in 0..Len(BaseSeq[bi].muts)
+\* a retry is accepted only with the recorded content, and the identical retry is accepted
+C04_RetryOnlyRecorded == last.kind = "retry" => (last.signed_ok /\ (last.canon_req => last.tag = "ok"))
+TypeOK == /\ bi \in 1..NB /\ mi \in 0..Len(BaseSeq[bi].muts) /\ ri \in 0..Len(BaseSeq[bi].retries)
           /\ last.tag \in {"ok", "policy", "len", "version", "decode", "mismatch", "top", "panic", "state", "refused"}
 
 \* size of the matrix (the vacuity guard - every rule is the SOLE reason of a refusal - is evaluated by
 \* ImplCommitTx on the real refusals, which is the stronger statement)
-MatrixStats == <<"CT_MATRIX", NB, NCases>>
+MatrixStats == <<"CT_MATRIX", NB, NCases, NRetries>>
 ASSUME PrintT(MatrixStats)
 =============================================================================
